@@ -229,6 +229,27 @@ def fam_slot_capacity_chain(n):
     return pt.Seq(*[v.store(pt.Int(i)) for i, v in enumerate(vs)], pt.Return(caller(pt.Int(3)) + tot == pt.Int(want))), 2
 
 
+def fam_two_spill_regimes(n):
+    """a recursive routine with TWO re-entering call sites whose spill code differs: the callee of the first has more arguments than the
+    routine has local slots (the spilled values are moved below the arguments), the second has fewer (the arguments are moved above them)"""
+    def py_f(k):
+        return 1 if k == 0 else py_g(k - 1, 2, 3) + py_f(k - 1) + 2 * k
+
+    def py_g(a, b, c):
+        return b + c + (py_f(a) if a > 0 else 0)
+
+    @pt.Subroutine(pt.TealType.uint64)
+    def f(k):
+        t = pt.ScratchVar(pt.TealType.uint64)
+        return pt.Seq(t.store(k * pt.Int(2)),
+                      pt.If(k == pt.Int(0)).Then(pt.Int(1)).Else(g(k - pt.Int(1), pt.Int(2), pt.Int(3)) + f(k - pt.Int(1)) + t.load()))
+
+    @pt.Subroutine(pt.TealType.uint64)
+    def g(a, b, c):
+        return b + c + pt.If(a > pt.Int(0)).Then(f(a)).Else(pt.Int(0))
+    return pt.Return(pt.Int(7) + f(pt.Int(n)) == pt.Int(7 + py_f(n))), 4
+
+
 def fam_after_router(k):
     """a routine first compiled inside Router.compile_program (scratch convention; the Router rewinds the slot-id counter afterwards while
     the routine keeps its slots), then called by an ordinary program that holds k fresh variables across the call: the variables may carry
@@ -256,6 +277,7 @@ def fam_after_router(k):
 
 FAMILIES = {
     "after_router": (fam_after_router, [1, 4, 8, 12]),
+    "two_spill_regimes": (fam_two_spill_regimes, [0, 1, 3]),
     "slot_capacity_chain": (fam_slot_capacity_chain, [3, 250, 251, 253, 254]),
     "abi_many_locals": (fam_abi_many_locals, [126, 127, 128, 130]),
     "explicit_return_abi_local": (fam_explicit_return_abi_local, [0, 3, 12]),
